@@ -334,3 +334,76 @@ def load_known_findings():
 
 def now():
     return time.time()
+
+
+# --------------------------------------------------------------------------- C14: race detector + offending pairs
+
+def race_lab(ctx):
+    """Build the harness with -race against /repo's working tree and run the 'race' lab: the concurrent parts of the
+    repository over an unsynchronised wire.  A report of the race detector is a concrete racy schedule."""
+    log = ctx["log"]
+    h = os.path.join(ROOT, "harness")
+    exe = os.path.join(BUILD, "harness.race.test")
+    rc, out = sh(["go", "test", "-race", "-c", "-tags", "verif", "-o", exe, "."], cwd=h, env=GOENV, timeout=900)
+    log.append("== go test -race -c (harness)\n" + out[-3000:])
+    if rc != 0:
+        return dict(broken=[("race-harness-build", out[-1500:])])
+    outdir = ctx["outdir"]
+    env = dict(GOENV, VERIF_LAB="race", VERIF_OUT=outdir, VERIF_SEED=str(ctx["seed"]), VERIF_TIER=ctx["tier"], GORACE="halt_on_error=0")
+    reps = 1 if ctx["tier"] == "quick" else 5
+    reports, runs = [], 0
+    for _ in range(reps):
+        try:
+            p = subprocess.run([exe, "-test.run", "^TestLab$", "-test.timeout", "0"], cwd=h, env=env, timeout=600,
+                               stdout=subprocess.PIPE, stderr=subprocess.STDOUT, text=True)
+            o = p.stdout
+        except subprocess.TimeoutExpired as e:
+            return dict(broken=[("lab:race", "timed out")])
+        runs += 1
+        log.append("== lab race rc=%d\n%s" % (p.returncode, o[-3000:]))
+        for m in re.finditer(r"WARNING: DATA RACE\n(.*?)\n==================", o, re.S):
+            reports.append(m.group(1))
+        if p.returncode != 0 and not reports:
+            return dict(broken=[("lab:race", o[-2000:])])
+    dist = {}
+    try:
+        dist = json.load(open(os.path.join(outdir, "race.dist.json")))
+    except OSError:
+        pass
+    res = dict(evaluations=sum(dist.values()) * runs if dist else runs, info={"race_detector_runs": runs, "scenarios": dist, "reports": len(reports)},
+               samples=[{"lab": "race", "case": "concurrent scenario families run under -race", "scenarios": dist}],
+               distinct=[hashlib.blake2b(k.encode(), digest_size=8).digest() for k in dist])
+    if reports:
+        first = reports[0]
+        locs = re.findall(r"(/repo/[^\s:]+:\d+)", first)
+        sig = [14, 1]
+        res["specfails"] = [("race", "!race-detector", sig, {"report": first[:4000], "locations": locs[:8]})]
+    return res
+
+
+def lockset_pairs(ctx):
+    """When the regenerated access table no longer satisfies the discipline, name the offending pairs."""
+    vf = os.path.join(BUILD, "kernel", "c14_pairs.v")
+    os.makedirs(os.path.dirname(vf), exist_ok=True)
+    open(vf, "w").write("From Coq Require Import List ZArith Bool.\nFrom TR Require Import Conc.Lockset Generated.Accesses.\nImport ListNotations.\nOpen Scope Z_scope.\n"
+                        "Definition up (t : list acc) := flat_map (fun a => flat_map (fun b => if conflict a b && negb (protected a b) then [(a_sys a, a_thread a, a_loc a, a_thread b)] else []) t) t.\n"
+                        "Definition r := Eval vm_compute in up accesses.\nPrint r.\n")
+    rc, out = sh(["timeout", "300", "coqc", "-Q", COQ, "TR", vf], cwd=os.path.dirname(vf))
+    for ext in (".vo", ".glob", ".vok", ".vos"):
+        try:
+            os.remove(vf[:-2] + ext)
+        except OSError:
+            pass
+    if rc != 0:
+        return dict(info={"pairs": "unavailable: " + out[-300:]})
+    pairs = re.findall(r"\((\d+), (\d+), (\d+), (\d+)\)", out)
+    names = {}
+    try:
+        for m in re.finditer(r"mkAcc (\d+) (\d+) \w+ (\d+) (\w+) \[[^\]]*\] \d+ \(\* (.*?) \*\)", open(os.path.join(COQ, "Generated/Accesses.v")).read()):
+            names.setdefault((m.group(1), m.group(2), m.group(3)), []).append(m.group(5))
+    except OSError:
+        pass
+    desc = []
+    for s, t1, loc, t2 in pairs[:20]:
+        desc.append({"system": s, "location_id": loc, "thread_a": t1, "thread_b": t2, "accesses_a": names.get((s, t1, loc), [])[:4], "accesses_b": names.get((s, t2, loc), [])[:4]})
+    return dict(info={"unprotected_pairs": desc})
